@@ -29,6 +29,7 @@ LEVEL_TEXT = (
     " Added: trimer networks with the repeated substrate in every argument position, the structure of every "
     "mapped influx / efflux reaction, an unlabelled substrate with a labelled product. "
     ' Also: one LabelMapper object built again after its maps were changed (all ordered pairs of maps).'
+    ' Also: compounds declared with zero label positions.'
 )
 LEVEL_NOTE = "trusted: the base Model's RHS (C01); mass-action rates so that both sides are multilinear in the isotopomer vectors"
 RULE = (
